@@ -28,6 +28,8 @@ def canon(o, ignore_col_order=False):
         idx = sorted(range(len(names)), key=lambda i: names[i])
         names = [names[i] for i in idx]
         rows = [[r[i] for i in idx] for r in rows]
+    # floats are compared as the model compares them (Model/Value.feqb, IEEE equality): -0.0 is 0.0
+    rows = [[0.0 if isinstance(v, float) and v == 0 else v for v in r] for r in rows]
     return ("ok", tuple(names), tuple(sorted(json.dumps(r, default=str) for r in rows)))
 
 
